@@ -1387,9 +1387,12 @@ RULE = (f"catalogue of {len(OPS)} ops ({len(OPS) - len(catalog.EDITORS)} queries
         "Specs); next n*5*3: poison sweep - every op once on every fixed Spec with one unresolvable modification at the first "
         "residue / last residue / C-terminus, followed by a mass call; next q*5*2: sandwich - query, explicit editor, the same "
         "query again; next l*q*2: lazy pairs - a lazy result advanced by one item, another client's query (also evaluated in "
-        "the pristine process), the lazy result drained or abandoned, the query again; other indices: seeded random history of 2-12 catalogue calls by 1-3 clients on 1-4 shared generated "
+        "the pristine process), the lazy result drained or abandoned, the query again (second pass in cold processes); next l*8: same-call - two clients make "
+        "the same lazy call on one object / on two unrelated objects of equal length and consume interleaved, the later "
+        "overtaking the earlier, in a cold process; other indices (every 8th in a cold process): seeded random history of 2-12 catalogue calls by 1-3 clients on 1-4 shared generated "
         "annotations plus shared list/dict arguments, with interleaved single steps / abandonment of lazy results, scribbles "
-        "on returned values, RNG use, vocabulary refresh and poisoned modifications, per-run swarm switches; ~5% of the calls "
+        "on returned values, RNG use, vocabulary refresh, poisoned modifications, in-place edits by the client of its own "
+        "list/dict arguments between calls, calls under warnings-as-errors, per-run swarm switches; ~5% of the calls "
         "are also evaluated in a pristine forked process. Distinct = distinct sequence of (event kind | op name); non-trivial "
         "= some shared pool object was passed to at least two calls and at least one oracle comparison ran.")
 EXPECTED_PROBES = ['twin_first', 'call_raised', 'lazy_stepped_across_a_call', 'abandoned_after_first_item',
@@ -1399,7 +1402,8 @@ _NOPS = len(OPS)
 _NQ = len([o for o in OPS.values() if 'editor' not in o.tags])
 _NL = len([o for o in OPS.values() if o.lazy])
 FAMILY_STARTS = [0, _NOPS * _NOPS * 5, _NOPS * _NOPS * 5 + _NOPS * 15, _NOPS * _NOPS * 5 + _NOPS * 15 + _NQ * 10,
-                 _NOPS * _NOPS * 5 + _NOPS * 15 + _NQ * 10 + _NL * _NQ * 2]
+                 _NOPS * _NOPS * 5 + _NOPS * 15 + _NQ * 10 + _NL * _NQ * 2,
+                 _NOPS * _NOPS * 5 + _NOPS * 15 + _NQ * 10 + _NL * _NQ * 2 + _NL * 8]
 ASSUMPTIONS = [
     "field accessors (properties, has_*, get_internal_mods_by_index) and Fragment.parent_sequence are references into "
     "the object by design and are not treated as 'results' for the aliasing clause",
